@@ -265,6 +265,27 @@ func driverLit(c *Ctx) {
 		}
 		idx++
 	}
+	// the same literal text in neighbouring items of different types: what it denotes depends on the item it stands in,
+	// not on what was read just before
+	numTypes := []string{"F4", "F8", "I1", "I2", "I4", "I8", "U1", "U2", "U4", "U8", "B"}
+	for _, lit := range []string{"0.1", "3.4028235e38", "1e39", "16777217", "1.0000000596046448", "-0", "1e-46", "255", "256", "-1", "-128", "65535", "65536",
+		"2147483648", "4294967295", "0x80", "0xFFFF", "0b11111111", "1", "0", "1.5", "9223372036854775807", "9223372036854775808"} {
+		for a, ta := range numTypes {
+			for b, tb := range numTypes {
+				if a == b || (a+b)%3 != 0 && !(ta[0] == 'F' && tb[0] == 'F') {
+					continue // every float pair, a third of the others
+				}
+				if c.want(idx) {
+					text := fmt.Sprintf("S1F1 W H->E\n<L <%s 1 %s> <%s %s 1> <%s %s>>\n.", ta, lit, tb, lit, ta, lit)
+					ev := parseEvent(text)
+					ev["ev"], ev["how"] = "parse", "neighbours"
+					c.emit(idx, ev)
+					c.count("lit.neighbours")
+				}
+				idx++
+			}
+		}
+	}
 	// random plausible texts on top
 	for k := 0; k < c.N; k++ {
 		if c.want(idx) {
@@ -335,6 +356,23 @@ func driverSizes(c *Ctx) {
 		for _, sz := range []string{"[99999999999999999999]", "[0..99999999999999999999]", "[99999999999999999999..]", "[9223372036854775807..9223372036854775808]",
 			"[9223372036854775808..9223372036854775807]", "[18446744073709551616..1]", "[..18446744073709551616]", "[4294967296]", "[2147483648..]", "[007]", "[1..1]", "[2..1]", "[010]", "[08]", "[001]", "[0010..011]", "[..010]", "[09..]", "[00]"} {
 			emitText(fmt.Sprintf("S1F1 W H->E\n<%s%s %s>\n.", ty, sz, v), "huge")
+		}
+	}
+	// a size violation behind a declaration that spans several lines (in an enclosing list, a sibling, the item itself,
+	// an earlier message): the error is reported at *its* declaration, line and column
+	for _, ml := range []string{"[2\n]", "[\n2]", "[ 1 ..\n 2 ]", "[1 // lower\n..2]", "[\r\n1\r\n..\r\n2\r\n]", "[2 //c\n//d\n]"} {
+		for _, ty := range []string{"U1", "A", "L", "F8", "BOOLEAN"} {
+			v := val[ty]
+			if v == "" {
+				v = "5"
+			}
+			three := strings.TrimSpace(strings.Repeat(v+" ", 3))
+			two := strings.TrimSpace(strings.Repeat(v+" ", 2))
+			emitText(fmt.Sprintf("S1F1 W H->E <L%s <%s[1] %s> <B 1>> .", ml, ty, three), "multiline")            // enclosing list declared over lines
+			emitText(fmt.Sprintf("S1F1 W H->E <L <%s%s %s> <%s[1] %s>> .", ty, ml, two, ty, three), "multiline") // a sibling before
+			emitText(fmt.Sprintf("S1F1 W H->E <%s%s %s> .", ty, ml, three), "multiline")                         // the item itself
+			emitText(fmt.Sprintf("S1F1 <%s%s %s> .\nS1F3 W <%s[1] %s> .", ty, ml, two, ty, three), "multiline")  // an earlier message
+			emitText(fmt.Sprintf("S1F1 W H->E <L <%s%s %s> <%s [0] %s> <U1 300>> .", ty, ml, two, ty, v), "multiline")
 		}
 	}
 	// ASCII variables: bounds kept, printed back, enforced when filled
@@ -425,7 +463,7 @@ func (g *Gen) lexemes() []string {
 			t = append(t, []string{"H->E", "H<-E", "H<->E"}[g.pick(3)])
 		}
 		if g.pick(2) == 0 {
-			t = append(t, []string{"Name", "n.1", "x<y", "Lot/Wafer", "a/", "/b/c"}[g.pick(6)])
+			t = append(t, []string{"Name", "n.1", "x<y", "Lot/Wafer", "a:", "/b/c"}[g.pick(6)])
 		}
 		if g.pick(6) != 0 {
 			t = append(t, g.itemLexemes(2)...)
@@ -652,7 +690,8 @@ func (g *Gen) expressibleNoStrings() *ast.DataMessage {
 // ---------------------------------------------------------------- C19
 
 func driverConcat(c *Ctx) {
-	seps := []string{"", " ", "\n", "\r\n", " // c\n", "\n// a comment line\n\n", "\t"}
+	seps := []string{"", " ", "\n", "\r\n", " // c\n", "\n// a comment line\n\n", "\t",
+		"// a\rb <L> .\n", " // x\r S9F9 W .\r\n", "//\r\n", " //\"q\rz\"\n"} // (a lone CR does not end a comment)
 	for i := 0; i < c.N; i++ {
 		if !c.want(i) {
 			continue
